@@ -542,7 +542,7 @@ func runC08(c *Ctx) {
 		sh.run(sub)
 		for _, o := range sub.Obligs {
 			switch o.Rule {
-			case "R-HEAP-BIDIR", "R-POP-CONSERVES", "R-MOVE-NOTIFY", "R-ADD-RETURNS":
+			case "R-HEAP-BIDIR", "R-POP-CONSERVES", "R-MOVE-NOTIFY", "R-ADD-RETURNS", "R-OFFSET-VALID":
 			default:
 				continue
 			}
@@ -765,6 +765,7 @@ func runC08(c *Ctx) {
 		} else {
 			// edges on which count ≤ 0 is established
 			est := map[[2]*ssa.BasicBlock]bool{}
+			assertOnly := false
 			for _, b := range body.Blocks {
 				if len(b.Instrs) == 0 {
 					continue
@@ -825,11 +826,31 @@ func runC08(c *Ctx) {
 						allHold = false
 					}
 				}
-				if noneHold {
-					est[[2]*ssa.BasicBlock{b, b.Succs[0]}] = true
+				// an assertion (the other way out is a panic) is a consistency check, not the control that decides
+				// when Clear is done: it establishes nothing
+				panics := func(s *ssa.BasicBlock) bool {
+					for d := 0; d < 3 && s != nil; d++ {
+						for _, in := range s.Instrs {
+							if _, ok := in.(*ssa.Panic); ok {
+								return true
+							}
+						}
+						if len(s.Succs) != 1 {
+							return false
+						}
+						s = s.Succs[0]
+					}
+					return false
 				}
-				if allHold {
+				if noneHold && !panics(b.Succs[1]) {
+					est[[2]*ssa.BasicBlock{b, b.Succs[0]}] = true
+				} else if noneHold {
+					assertOnly = true
+				}
+				if allHold && !panics(b.Succs[0]) {
 					est[[2]*ssa.BasicBlock{b, b.Succs[1]}] = true
+				} else if allHold {
+					assertOnly = true
 				}
 			}
 			// a return reachable from the entry without crossing such an edge
@@ -850,7 +871,9 @@ func runC08(c *Ctx) {
 				}
 			}
 			key := "cache.(*Cache).Clear:returns only when empty"
-			if len(est) == 0 {
+			if len(est) == 0 && assertOnly {
+				c.bad("R-CLEAR-ALL", key, body.Pos(), "the only test of the entry count in Clear is an assertion that panics; what ends the eviction loop is some other quantity (the total size, say): entries of size 0 are left in the store, their eviction callbacks never run, and the assertion fires")
+			} else if len(est) == 0 {
 				c.undecided("R-CLEAR-ALL", key, body.Pos(), "Clear never tests the entry count against zero: cannot tell when it considers the cache empty")
 			} else if badRet != nil {
 				c.bad("R-CLEAR-ALL", key, badRet.Pos(), fmt.Sprintf("Clear can return at line %d without having seen count ≤ 0: entries (and their eviction callbacks) can be left behind, e.g. when every entry has size 0", P.Fset.Position(badRet.Pos()).Line))
@@ -980,6 +1003,21 @@ func runC08(c *Ctx) {
 							}
 						}
 					}
+				}
+				// … or the very value that a tick in this function stores into the clock (now := c.clock + 1;
+				// c.clock = now; … lastAccess = now)
+				if !okL {
+					allInstrs(fn, func(in2 ssa.Instruction) {
+						if st2, ok := in2.(*ssa.Store); ok && st2.Val == st.Val {
+							if fa2, ok := st2.Addr.(*ssa.FieldAddr); ok {
+								if _, f2 := fieldVarOf(fa2); sameField(f2, clockF) {
+									if bo, ok := st2.Val.(*ssa.BinOp); ok && bo.Op == token.ADD && isLoad(bo.X, clockF) && isConstInt(bo.Y, 1) {
+										okL = true
+									}
+								}
+							}
+						}
+					})
 				}
 				// … or the result of a tick helper: a function that bumps the clock by one and returns the
 				// clock as it stands after the bump (now := c.tick())
